@@ -20,6 +20,7 @@ Transcribed (file:lines of /repo/lena):
 * `Count.run`                flow/elements.py:74-106            → `countG`
 * `Split.run`                core/split.py:280-417 (block processing from `Lena.C03`) → `splitG`
 * `Sequence.run`             core/sequence.py:67-77             → `seqRun`
+  (`Source.__call__`, core/source.py: `self._tail.run(first())`, is `seqRun` on the flow `first()`)
 and the pieces of `FillComputeSeq`/`FillSeq`/`FillInto` (`fillChain`) that decide when a
 fill/compute branch of a `Split` raises `LenaStopFill`.
 
@@ -129,20 +130,23 @@ def filterG (p : α → Bool) (up : Gen σ α) : Gen σ α := ofStep (filterStep
 
 /-- loop body of `RunIf.run`:
 `for val in flow: if select(val): for result in seq.run([val]): yield result  else: yield val`.
-The local state is what `seq.run([val])` still has to yield (`inner val` is that flow drained:
-it does not touch the source, so its own laziness is not observable). -/
-def runIfStep (sel : α → Bool) (inner : α → List α) (up : Gen σ α) (fu : Nat) :
-    σ × List α → Step (σ × List α) α
-  | (s, x :: r) => .yield x (s, r)
-  | (s, []) =>
+`inner i val` is what `seq.run([val])` yields, drained, together with the new state `i` of the inner
+sequence's elements (a `Count` inside keeps counting from one value to the next); the inner flow
+does not touch the source, so its own laziness is not observable.  The local state is what
+`seq.run([val])` still has to yield, and the state of the inner sequence. -/
+def runIfStep {ι : Type} (sel : α → Bool) (inner : ι → α → List α × ι) (up : Gen σ α) (fu : Nat) :
+    σ × (List α × ι) → Step (σ × (List α × ι)) α
+  | (s, (x :: r, i)) => .yield x (s, (r, i))
+  | (s, ([], i)) =>
     match up.next fu s with
-    | .item a s' => if sel a then .cont (s', inner a) else .yield a (s', [])
-    | .done s' => .stop (s', [])
+    | .item a s' => if sel a then .cont (s', inner i a) else .yield a (s', ([], i))
+    | .done s' => .stop (s', ([], i))
     | .fuel => .fuel
     | .error e => .error e
 
 /-- `RunIf.run` -/
-def runIfG (sel : α → Bool) (inner : α → List α) (up : Gen σ α) : Gen (σ × List α) α :=
+def runIfG {ι : Type} (sel : α → Bool) (inner : ι → α → List α × ι) (up : Gen σ α) :
+    Gen (σ × (List α × ι)) α :=
   ofStep (runIfStep sel inner up)
 
 /-! ## `itertools.islice` (CPython 3.12 `islice_next`) -/
@@ -438,7 +442,7 @@ inductive Stage (α : Type) : Type 1 where
   /-- `Slice` with a negative `start` or `stop` -/
   | negslice (start stop : Option Int) (step : Nat)
   | count (mark : Nat → α → α)
-  | runIf (sel : α → Bool) (inner : α → List α)
+  | runIf (ι : Type) (init : ι) (sel : α → Bool) (inner : ι → α → List α × ι)
   | split (σb : Type) (branches : List (Lena.C03.Branch σb α)) (bufsize : Option Nat) (copyBuf : Bool)
 
 /-- `el.run(flow)`: builds the iterator object, runs nothing -/
@@ -456,8 +460,8 @@ def Stage.run : Stage α → Pipe α → Pipe α
         clock := fun s => p.clock s.1.1 }
   | .count mark, p =>
     { σ := p.σ × CSt α, gen := countG mark p.gen, st := (p.st, .start), clock := fun s => p.clock s.1 }
-  | .runIf sel inner, p =>
-    { σ := p.σ × List α, gen := runIfG sel inner p.gen, st := (p.st, []), clock := fun s => p.clock s.1 }
+  | .runIf ι init sel inner, p =>
+    { σ := p.σ × (List α × ι), gen := runIfG sel inner p.gen, st := (p.st, ([], init)), clock := fun s => p.clock s.1 }
   | .split σb brs bufsize copyBuf, p =>
     -- `Split([])`: `run = _empty_run`: `for val in flow: yield val`
     if brs.isEmpty then { σ := p.σ, gen := mapG id p.gen, st := p.st, clock := p.clock }
@@ -536,8 +540,15 @@ def mapSpec (f : α → β) (sf : SF α) : SF β :=
 def filterSpec (p : α → Bool) (sf : SF α) : SF α :=
   { sf with vals := sf.vals.filter (fun q => p q.1) }
 
-def runIfSpec (sel : α → Bool) (inner : α → List α) (sf : SF α) : SF α :=
-  { sf with vals := sf.vals.flatMap (fun q => if sel q.1 then (inner q.1).map (fun r => (r, q.2)) else [q]) }
+/-- `RunIf`: what the inner sequence yields for a selected value is handed over at that value's stamp -/
+def runIfSpecGo {ι : Type} (sel : α → Bool) (inner : ι → α → List α × ι) : ι → List (α × Nat) → List (α × Nat)
+  | _, [] => []
+  | i, q :: r =>
+    if sel q.1 then (inner i q.1).1.map (fun x => (x, q.2)) ++ runIfSpecGo sel inner (inner i q.1).2 r
+    else q :: runIfSpecGo sel inner i r
+
+def runIfSpec {ι : Type} (init : ι) (sel : α → Bool) (inner : ι → α → List α × ι) (sf : SF α) : SF α :=
+  { sf with vals := runIfSpecGo sel inner init sf.vals }
 
 /-- `islice`: a selected value is yielded the moment it is pulled; with a `stop` the iterator ends
 having obtained `max start stop` values (or seen the end of a shorter input) -/
@@ -625,7 +636,7 @@ def Stage.spec : Stage α → SF α → SF α
   | .islice a b st => isliceSpec a b st
   | .negslice a b st => negSliceSpec a b st
   | .count mark => countSpec mark
-  | .runIf sel inner => runIfSpec sel inner
+  | .runIf _ init sel inner => runIfSpec init sel inner
   | .split _ brs bufsize copyBuf => fun sf => if brs.isEmpty then mapSpec id sf else splitSpec brs bufsize copyBuf sf
 
 def seqSpec (els : List (Stage α)) (sf : SF α) : SF α := els.foldl (fun s el => el.spec s) sf
@@ -640,6 +651,11 @@ def countDen (mark : Nat → α → α) : List α → List α
   | [] => []
   | a :: r => countDenGo mark a 1 r
 
+def runIfDenGo {ι : Type} (sel : α → Bool) (inner : ι → α → List α × ι) : ι → List α → List α
+  | _, [] => []
+  | i, v :: r =>
+    if sel v then (inner i v).1 ++ runIfDenGo sel inner (inner i v).2 r else v :: runIfDenGo sel inner i r
+
 def Stage.den : Stage α → List α → List α
   | .map f, xs => xs.map f
   | .filter p, xs => xs.filter p
@@ -649,7 +665,7 @@ def Stage.den : Stage α → List α → List α
     | some (.ok ys) => ys
     | _ => []
   | .count mark, xs => countDen mark xs
-  | .runIf sel inner, xs => xs.flatMap (fun v => if sel v then inner v else [v])
+  | .runIf _ init sel inner, xs => runIfDenGo sel inner init xs
   | .split _ brs bufsize copyBuf, xs =>
     Lena.C03.Split.run { branches := brs, bufsize := bufsize, copyBuf := copyBuf } xs
 
